@@ -20,28 +20,34 @@ mod layout_parsing_formatting { include!(concat!(env!("VERIF_REPO_SRC"), "/layou
 mod loader_probe { include!("loader_probe.rs"); }
 mod tables_probe { include!("tables_probe.rs"); }
 mod struct_ser { include!(concat!(env!("VERIF_REPO_SRC"), "/struct_ser.rs")); }
+// The probe / oracle files live in a CHILD module of the module that holds the real text: private items and imports of the real file are visible there
+// (`use super::*`), while the probe's own imports and names shadow instead of clashing - an import or a helper added to the real file cannot break the build.
 mod dev_input_rw {
   include!(concat!(env!("VERIF_REPO_SRC"), "/dev_input_rw.rs"));
-  include!("c18_probe.rs");
+  pub mod probe { use super::*; include!("c18_probe.rs"); }
+  pub use self::probe::*;
 }
 
 mod key_transforms {
   include!(concat!(env!("VERIF_REPO_SRC"), "/key_transforms.rs"));
-  include!("mapper_oracles.rs");
+  pub mod probe { use super::*; include!("mapper_oracles.rs"); }
+  pub use self::probe::*;
 }
 
 mod keyboard_listing { include!(concat!(env!("VERIF_REPO_SRC"), "/keyboard_listing.rs")); }
 mod tablet_mode_switch_reader { include!(concat!(env!("VERIF_REPO_SRC"), "/tablet_mode_switch_reader.rs")); }
 mod remapping_loop {
   include!(concat!(env!("VERIF_REPO_SRC"), "/remapping_loop.rs"));
-  include!("loop_probe.rs");
+  pub mod probe { use super::*; include!("loop_probe.rs"); }
+  pub use self::probe::*;
 }
 
 // the N2-normalised text of key_transforms.rs (written by the assembler), for differential validation
 #[cfg(n2_validation)]
 mod key_transforms_n2 {
   include!(concat!(env!("VERIF_N2_FILE")));
-  include!("n2_probe.rs");
+  pub mod probe { use super::*; include!("n2_probe.rs"); }
+  pub use self::probe::*;
 }
 
 fn main() {
